@@ -8,8 +8,12 @@ _GATHER_NOTE = (
     "(the mDNS server is not started: the mode is set on the agent), pion/stun message coding, pion/transport; "
     "net/netip address classification (loopback, link-local, site-local fec0::/10, ::/96) is mirrored by a small "
     "Lean function over address classes and validated by the correspondence; the real UDPMuxDefault/TCPMuxDefault are "
-    "replaced by counting fakes (their own behaviour is C12/C13/C15). No translation (T) or skeleton (S) tie for "
-    "gather.go: a change of the code is noticed through the correspondence only, i.e. as far as the generators reach "
+    "replaced by counting fakes (their own behaviour is C12/C13/C15). Translation tie (T) for the pure address-class and "
+    "network-type tests only (isSupportedIPv6Partial, shouldFilterLocationTracked(IP), isIPv6LinkLocal, determineNetworkType, "
+    "supportedNetworkTypes, configuredNetworkTypes, networkTypeEnabled, hostNetworkTypeEnabled: regenerated on every run and "
+    "proved equal to the model's supported6 / isLinkLocal6 / hostNetEnabled / configured, IceTie/Gather.lean; what a class "
+    "means in bytes is IceTie.Gather.Bytes6); no T or skeleton (S) tie for the gatherers of "
+    "gather.go themselves: a change of that code is noticed through the correspondence only, i.e. as far as the generators reach "
     "(generator restrictions: several gatherers never race for the last free port; the srflx mux has one listen "
     "address; ONE host rewrite rule per agent - replace/append, catch-all or pinned to a local address, optionally "
     "interface-scoped - its lookup is restated for that shape, precedence among several rules is C19's; a host rule that "
@@ -50,7 +54,9 @@ CFG = {
             "failures, rewrite rules) x random interface table x random script of gather/restart/close/fail/release/adv/"
             "stunreply/turnreply/ifaces/hold. Distinct = distinct (operation, output) lines; non-trivial = a session exists (not a refused "
             "constructor / bad-op).",
-    "translated": [],
+    "translated": ["isSupportedIPv6Partial", "shouldFilterLocationTrackedIP", "shouldFilterLocationTracked", "isIPv6LinkLocal",
+                   "supportedNetworkTypes", "configuredNetworkTypes", "networkTypeEnabled", "determineNetworkType",
+                   "hostNetworkTypeEnabled"],
     "trusted_base": ["fake transport.Net / muxes / TURN client / STUN responder of harness/inpkg/zz_verif_gather_test.go",
                      "go1.26.8 testing/synctest (virtual clock, quiescence detection)",
                      "IP classification mirrored by AddrClass predicates (validated by correspondence)",
